@@ -154,7 +154,7 @@ spec("chain",
      os=["linux"], services=["ssh"], processes=["tomcat"],
      hosts={(1, 0): H("linux", ["ssh"], ["tomcat"], dvalue=0),
             (2, 0): H("linux", ["ssh"], ["tomcat"], dvalue=2),
-            (3, 0): H("linux", ["ssh"], [], dvalue=12),      # above every host value (space bounds)
+            (3, 0): H("linux", ["ssh"], [], value=15, dvalue=12),   # not sensitive, worth more than every sensitive host
             (4, 0): H("linux", ["ssh"], ["tomcat"], dvalue=4)},
      exploits={"e_ssh": E("ssh", "linux", 0.8, 1, U)},
      privescs={"pe_tomcat": P("tomcat", "linux", 1.0, 1, R)},
@@ -299,7 +299,11 @@ def build_dict_scenario(sp):
                         services={s: s in d["srv"] for s in sp["services"]},
                         processes={p: p in d["proc"] for p in sp["processes"]},
                         firewall={k: list(v) for k, v in d["deny"].items()},
-                        value=float(value), discovery_value=float(d["dvalue"]))
+                        value=float(value), discovery_value=float(d["dvalue"]),
+                        # every second host of a hand-built scenario is CONSTRUCTED as if the attacker already held it
+                        # (optional constructor arguments); the environment starts and resets with no access anywhere
+                        **(dict(compromised=True, access=2, discovered=True, reachable=True)
+                           if (h[0] + h[1]) % 2 == 0 and not sp.get("big") else {}))
     sd = {"subnets": [1] + list(sp["subnets"]), "topology": copy.deepcopy(sp["topology"]),
           "os": list(sp["os"]), "services": list(sp["services"]), "processes": list(sp["processes"]),
           "sensitive_hosts": dict(sp["sens"]),
